@@ -114,16 +114,22 @@ impl<'input> LambdaASTLexer<'input> {
         start_offset: usize,
         condition: impl Fn(char) -> bool,
     ) -> &'input str {
-        let mut end_pos = start_offset;
+        // the token starts with the (already consumed) char at start_offset, which may be multi-byte
+        let first_char_len = self.input[start_offset..]
+            .chars()
+            .next()
+            .map(char::len_utf8)
+            .unwrap_or_default();
+        let mut end_pos = start_offset + first_char_len;
         while let Some((pos, ch)) = self.chars.peek() {
             if !condition(*ch) {
                 break;
             }
-            end_pos = *pos;
+            end_pos = *pos + ch.len_utf8();
             self.chars.next();
         }
 
-        &self.input[start_offset..end_pos + 1]
+        &self.input[start_offset..end_pos]
     }
 
     fn try_parse_first_token(&mut self) -> Spanned<Token<'input>, usize, LexerError> {
